@@ -290,10 +290,62 @@ func (c *C10Case) cliResult(a inprocResult) (res opResult) {
 // runCLIKind: the operation asked of the command tree (cmd.RootCmd, whose --seed is the product's one seeding
 // point), twice with the same seed - another seeded command in between, another map order and clock the second
 // time - must write the same bytes, and what it writes must satisfy the statement's invariant for the operation.
+// c10Canary: what two fixed seeded substitutions (one amino-acid, one nucleotide alignment) give in this process.
+// Whatever a command leaves behind in the process that a later seeded operation reads - a table reordered in
+// place, a generator re-seeded - shows as a change of it.
+var c10CanaryFirst string
+
+func c10Canary() string {
+	var sb strings.Builder
+	for _, spec := range []struct {
+		alpha int
+		row   string
+	}{{align.AMINOACIDS, "ARNDCQEGHILKMFPSTWYVARNDCQEGHILKMFPSTWYV"}, {align.NUCLEOTIDS, "ACGTACGTACGTACGTACGTACGTACGTACGTACGTACGT"}} {
+		al := align.NewAlign(spec.alpha)
+		al.AddSequence("a", spec.row, "")
+		al.AddSequence("b", spec.row, "")
+		rand.Seed(424242)
+		al.Mutate(1)
+		s0, _ := al.GetSequenceById(0)
+		s1, _ := al.GetSequenceById(1)
+		sb.WriteString(s0 + "/" + s1 + ";")
+	}
+	return sb.String()
+}
+
 func (c *C10Case) runCLIKind(ctx *Ctx, o *Outcome, fail func(string, string, ...interface{})) {
 	args, files := c.cliArgs()
+	if c10CanaryFirst == "" {
+		c10CanaryFirst = c10Canary()
+	}
+	if now := c10Canary(); now != c10CanaryFirst {
+		fail("replay-differs:process-state", "two fixed seeded substitutions give %q in this process now and gave %q when it started: something an earlier execution left behind changes what a seed reproduces", now, c10CanaryFirst)
+		c10CanaryFirst = now
+		return
+	}
+	defer func() {
+		if now := c10Canary(); now != c10CanaryFirst && o.V == nil {
+			fail("replay-differs:process-state", "goalign %s, or the command executed after it: two fixed seeded substitutions give %q in this process afterwards and gave %q before - what a seed reproduces now depends on which commands the process has executed", strings.Join(args, " "), now, c10CanaryFirst)
+			c10CanaryFirst = now
+		}
+	}()
 	a := runInProc(ctx, args, files, c.MapSeeds[0], c.Clocks[0])
-	runInProc(ctx, []string{"shuffle", "sites", "-r", "1", "-i", "in.fa", "--seed", fmt.Sprint(c.Seed + 1)}, files, c.MapSeeds[0], c.Clocks[0])
+	// between the two: another command in the same process - one that draws, or one of those that only read
+	between := [][]string{
+		{"shuffle", "sites", "-r", "1", "--seed", fmt.Sprint(c.Seed + 1)},
+		{"mutate", "snvs", "-r", "0.5", "--seed", fmt.Sprint(c.Seed + 2)},
+		{"compute", "pssm", "-n", "1", "-c", "0.1"},
+		{"compute", "entropy"},
+		{"stats"},
+		{"stats", "char", "--per-sites"},
+		{"consensus"},
+		{"reformat", "nexus"},
+		{"translate", "--phase", "1"},
+		{"sort"},
+	}
+	bt := between[int(Mix(c.MapSeeds[0], "between")%uint64(len(between)))]
+	runInProc(ctx, append(append([]string{}, bt...), "-i", "in.fa"), files, c.MapSeeds[0], c.Clocks[0])
+	o.Add("cli_between_"+bt[0]+"_"+bt[1%len(bt)], 1)
 	var b inprocResult
 	if c.Flag || c.Op == "bootstrap" {
 		// the second execution finds what the first one wrote (a re-run onto the same output names)
